@@ -136,7 +136,16 @@ def run(tier):
         for r, mask in bad[:3]:
             rec, par = lc.entry(r, "gosqlx.ParseWithRecovery"), lc.entry(r, "Parser.Parse")
             failing = (len(rec.get("rec_errs") or []) > 0) != (not par["accepted"])
-            rp.violation({"kind": "correspondence", "sql": r["sql"], "differs_on": lc.mask_names(mask),
+            why = None
+            if not failing and "'" not in r["sql"] and '"' not in r["sql"]:
+                # decide with the segment oracle on the textual segments of this input
+                segs = [x.strip() for x in r["sql"].split(";") if x.strip()]
+                if segs:
+                    pr = common.vh(["recseg"], input=json.dumps({"segs": segs}) + "\n")
+                    if pr.stdout.strip():
+                        why = seg_oracle(json.loads(pr.stdout.splitlines()[0]))
+                        failing = bool(why)
+            rp.violation({"kind": "correspondence", "sql": r["sql"], "differs_on": lc.mask_names(mask), "segment_oracle": why,
                           "theorem": "Props/C12.v theorems are about Model/Loops.v recover/sync, which no longer reproduce the real loop",
                           "explanation": "the Coq model of parseWithRecovery/synchronize, run on the recorded parseStatement table, differs from the real result"},
                          "recover_model_mismatch_%d" % len(rp.violations), no_input=not failing)
@@ -172,6 +181,10 @@ def replay(path):
         r = rows[0]
         rec, par = lc.entry(r, "gosqlx.ParseWithRecovery"), lc.entry(r, "Parser.Parse")
         bad = bool(rec.get("panic")) or (len(rec.get("rec_errs") or []) > 0) != (not par["accepted"]) or bool(lc.ps_hypotheses(r))
+        segs = [x.strip() for x in d["sql"].split(";") if x.strip()]
+        if not bad and segs and "'" not in d["sql"]:
+            pr = common.vh(["recseg"], input=json.dumps({"segs": segs}) + "\n")
+            bad = bool(seg_oracle(json.loads(pr.stdout.splitlines()[0])))
         print("fails" if bad else "holds")
         return 1 if bad else 0
     return 2
